@@ -242,7 +242,9 @@ func (b *Broker[T]) Populate(iter *fun.Iterator[T]) fun.Worker {
 
 // Stats provides introspection into the current state of the broker.
 func (b *Broker[T]) Stats(ctx context.Context) BrokerStats {
-	signal := make(chan BrokerStats)
+	// buffered: the event loop runs the callback and must never
+	// block on a caller whose context has ended in the meantime.
+	signal := make(chan BrokerStats, 1)
 	var output BrokerStats
 	select {
 	case <-ctx.Done():
